@@ -133,7 +133,7 @@ def spaces(tier, seed):
                            "forms that write a wall time; the timestamp form writes the instant)" % (DST_YEARS,)))
     sp.append(Product("relative-with-aware-base", {"X": [0, -180, 330, 540], "A": [None, "UTC", "Asia/Kolkata", "+0500", "Asia/Tokyo"],
                                                    "B": [None, "UTC", "Asia/Kolkata", "+0500", "Asia/Tokyo", "-0800"], "w": [0, 5, 11],
-                                                   "ph": ["in 2 hours", "1 day ago", "yesterday 8:30", "in 1 month"], "aware": AWARE, "tzenv": ["UTC"]},
+                                                   "ph": ["in 2 hours", "1 day ago", "yesterday 8:30", "in 1 month"], "aware": AWARE, "tzenv": ["UTC"], "same_instant": [False, True]},
                       note="RELATIVE_BASE is zone-aware (fixed offset X minutes): the arithmetic is done on the base's own wall clock, TO_TIMEZONE re-expresses the result's instant"))
     sp.append(Product("custom-format-with-%z", {"A": [None, "UTC", "America/New_York", "Asia/Kolkata", "+0300"], "B": [None, "UTC", "Asia/Tokyo", "-0800"],
                                                 "z": ["+0000", "+0530", "-0800", "+1400", "-0330", "+0100"], "w": [0, 5, 11],
@@ -218,6 +218,9 @@ def _run_aware_base(sub, c):
     from ..refmodel import relative
     W = LOCALS[c["w"]]
     zx = pytz.FixedOffset(c["X"])
+    if c.get("same_instant"):
+        # the same instant for every X (aware datetimes of one instant compare and hash equal): W is its UTC wall clock
+        W = pytz.utc.localize(W).astimezone(zx).replace(tzinfo=None)
     base = zx.localize(W)
     parts, sign, clockv = {"in 2 hours": ([(2, "hour")], 1, None), "1 day ago": ([(1, "day")], -1, None), "yesterday 8:30": ([(1, "day")], -1, (8, 30)),
                            "in 1 month": ([(1, "month")], 1, None)}[c["ph"]]
